@@ -189,7 +189,7 @@ Proof.
   - (* statements *)
     intros st args locs whole rest idx r st' ln H Hr HI.
     destruct rest as [|s more]; simpl in H; [inversion H; subst; apply RgE_refl|].
-    destruct s as [e|e h].
+    destruct s as [e|e h|e fc].
     + destruct (eval_expr f st args locs (stmt_line whole idx) e) as [r1 st1] eqn:E1.
       assert (Hr1 : r1 <> OutOfFuel) by (intros ->; inversion H; subst; congruence).
       destruct (SE _ _ _ _ _ _ _ E1 Hr1 HI) as (I1 & F1 & _).
@@ -216,6 +216,29 @@ Proof.
         destruct r2 as [v2|k2|]; [|inversion H; subst; exact R02|congruence].
         destruct (SB _ _ _ _ _ _ _ _ _ H Hr I2) as (_ & F3 & _).
         eapply RgE_trans; [exact R02|eapply IHb; eauto|exact F3].
+    + destruct (eval_expr f st args locs (stmt_line whole idx + 1) e) as [r1 st1] eqn:E1.
+      assert (Hr1 : r1 <> OutOfFuel) by (intros ->; inversion H; subst; congruence).
+      destruct (SE _ _ _ _ _ _ _ E1 Hr1 HI) as (I1 & F1 & _).
+      pose proof (IHe _ _ _ _ _ _ _ E1 Hr1 HI) as R1.
+      destruct r1 as [v1|k1|]; [| |congruence].
+      * destruct (eval_expr f st1 args locs (stmt_line whole idx + 3) fc) as [r2 st2] eqn:E2.
+        assert (Hr2 : r2 <> OutOfFuel) by (intros ->; inversion H; subst; congruence).
+        destruct (SE _ _ _ _ _ _ _ E2 Hr2 I1) as (I2 & F2 & _).
+        pose proof (IHe _ _ _ _ _ _ _ E2 Hr2 I1) as R2.
+        assert (R02 : RgE st st2) by (eapply RgE_trans; eauto).
+        destruct r2 as [v2|k2|]; [|inversion H; subst; exact R02|congruence].
+        destruct (SB _ _ _ _ _ _ _ _ _ H Hr I2) as (_ & F3 & _).
+        eapply RgE_trans; [exact R02|eapply IHb; eauto|exact F3].
+      * set (st1' := upd_rolled st1 []) in *.
+        assert (I1' : Inv st1') by exact I1.
+        assert (R1' : RgE st st1') by exact R1.
+        destruct (eval_expr f st1' args locs (stmt_line whole idx + 3) fc) as [r2 st2] eqn:E2.
+        assert (Hr2 : r2 <> OutOfFuel) by (intros ->; inversion H; subst; congruence).
+        destruct (SE _ _ _ _ _ _ _ E2 Hr2 I1') as (I2 & F2 & _).
+        pose proof (IHe _ _ _ _ _ _ _ E2 Hr2 I1') as R2.
+        assert (R02 : RgE st st2) by (eapply RgE_trans; eauto).
+        destruct r2 as [v2|k2|]; [| |congruence]; inversion H; subst; [exact R02|].
+        destruct (ekind_eqb k1 KDeep); exact R02.
 Qed.
 
 Lemma RgOK_RgE st st' : RgOK st -> RgE st st' -> frame st st' -> RgOK st'.
